@@ -199,4 +199,70 @@ example : wellFormed (sample .lcc .foot 1) = true := by decide +kernel
 example : isView (parse (toWkt (sample .lcc .metre 0) {})) (expected { sample .lcc .metre 0 with lat1 := ⟨46125, 3⟩, lat2 := ⟨443333, 4⟩ }) = false := by
   decide +kernel
 
+/-! ## PARAMETER names and the unit of the false origin, for ALL numerals -/
+
+theorem splitOn_nosep (c : Char) : ∀ v : Str, c ∉ v → splitOn c v = [v]
+  | [], _ => rfl
+  | x :: r, h => by
+    have hx : x ≠ c := fun e => h (by simp [e])
+    have hr : c ∉ r := fun e => h (by simp [e])
+    simp [splitOn, hx, splitOn_nosep c r hr]
+
+theorem splitOn_lit (c : Char) (v : Str) (hv : c ∉ v) : ∀ lit : Str, c ∉ lit → splitOn c (lit ++ c :: v) = [lit, v]
+  | [], _ => by simp [splitOn, splitOn_nosep c v hv]
+  | x :: r, h => by
+    have hx : x ≠ c := fun e => h (by simp [e])
+    have hr : c ∉ r := fun e => h (by simp [e])
+    simp [splitOn, hx, splitOn_lit c v hv r hr]
+
+/-- a `PARAMETER["name",value]` section is read as: the lower-cased unquoted name selects the field,
+the value text is trimmed and parsed -/
+theorem param_apply (sr : SR XR) (lit v name : Str) (x : XR) (hl : ',' ∉ lit) (hv : ',' ∉ v)
+    (hx : parseFloat (α := XR) (trimSpace v) = .ok x) (hn : trim isQuote (toLower lit) = name) :
+    parseWKTParameter sr (lit ++ ',' :: v) = paramSet sr name x := by
+  unfold parseWKTParameter
+  simp [splitOn_lit ',' v hv lit hl, hx, hn]
+
+/-- **C20_wkt_parameter_map** — for every value text `v` (no comma) that `ParseFloat` reads as `x`,
+each PARAMETER name the renderers use — OGC lower case or ESRI capitalised — writes exactly the
+intended field: angles times `deg2rad`, linear and scale values unchanged; in particular
+`longitude_of_center` is NOT the central meridian field (it is copied to `Long0` by `wkt` for the
+three projections that need it, see `wkt`). -/
+theorem C20_wkt_parameter_map (sr : SR XR) (v : Str) (x : XR) (hv : ',' ∉ v)
+    (hx : parseFloat (α := XR) (trimSpace v) = .ok x) :
+    let r := Num.mul x (deg2rad : XR)
+    parseWKTParameter sr (s "\"false_easting\"" ++ ',' :: v) = ok { sr with x0 := x }
+    ∧ parseWKTParameter sr (s "\"False_Easting\"" ++ ',' :: v) = ok { sr with x0 := x }
+    ∧ parseWKTParameter sr (s "\"false_northing\"" ++ ',' :: v) = ok { sr with y0 := x }
+    ∧ parseWKTParameter sr (s "\"False_Northing\"" ++ ',' :: v) = ok { sr with y0 := x }
+    ∧ parseWKTParameter sr (s "\"central_meridian\"" ++ ',' :: v) = ok { sr with long0 := r }
+    ∧ parseWKTParameter sr (s "\"Central_Meridian\"" ++ ',' :: v) = ok { sr with long0 := r }
+    ∧ parseWKTParameter sr (s "\"longitude_of_center\"" ++ ',' :: v) = ok { sr with longC := r }
+    ∧ parseWKTParameter sr (s "\"latitude_of_origin\"" ++ ',' :: v) = ok { sr with lat0 := r }
+    ∧ parseWKTParameter sr (s "\"Latitude_Of_Origin\"" ++ ',' :: v) = ok { sr with lat0 := r }
+    ∧ parseWKTParameter sr (s "\"latitude_of_center\"" ++ ',' :: v) = ok { sr with lat0 := r }
+    ∧ parseWKTParameter sr (s "\"standard_parallel_1\"" ++ ',' :: v) = ok { sr with lat1 := r }
+    ∧ parseWKTParameter sr (s "\"Standard_Parallel_1\"" ++ ',' :: v) = ok { sr with lat1 := r }
+    ∧ parseWKTParameter sr (s "\"standard_parallel_2\"" ++ ',' :: v) = ok { sr with lat2 := r }
+    ∧ parseWKTParameter sr (s "\"Standard_Parallel_2\"" ++ ',' :: v) = ok { sr with lat2 := r }
+    ∧ parseWKTParameter sr (s "\"scale_factor\"" ++ ',' :: v) = ok { sr with k0 := x }
+    ∧ parseWKTParameter sr (s "\"Scale_Factor\"" ++ ',' :: v) = ok { sr with k0 := x } := by
+  intro r
+  refine ⟨?_, ?_, ?_, ?_, ?_, ?_, ?_, ?_, ?_, ?_, ?_, ?_, ?_, ?_, ?_, ?_⟩ <;>
+    (rw [param_apply sr _ v _ x (by decide) hv hx rfl]; rfl)
+
+/-- **C20_wkt_false_origin_metres** — whatever the sections wrote, `wkt` returns the false origin
+multiplied by the linear unit's factor (the WKT false origin is stated in the declared unit, the
+transformer works in metres). -/
+theorem C20_wkt_false_origin_metres (w : Str) (r : SR XR) (h : wkt (α := XR) w = .ok r) :
+    let p := (parseWKTSection (α := XR) (w.length + 1) [] w newSR).1
+    r.x0 = Num.mul p.x0 p.toMeter ∧ r.y0 = Num.mul p.y0 p.toMeter ∧ r.toMeter = p.toMeter := by
+  unfold wkt at h
+  simp only [] at h
+  split at h
+  · exact absurd h (by simp)
+  · injection h with h
+    subst h
+    refine ⟨?_, ?_, ?_⟩ <;> (repeat' split) <;> rfl
+
 end GeomV.C20
